@@ -557,6 +557,7 @@ var readOnlyEntries = [][2]string{
 	{"pkg/chart/v2/util", "ProcessDependencies"},
 	{"pkg/chart/v2/util", "ValidateAgainstSchema"},
 	{"pkg/engine", "Engine.Render"},
+	{"pkg/lint/rules", "validateValuesFile"}, // helm lint merges the chart's values.yaml over the caller's overrides, chart after chart
 }
 
 // c04NoMutation runs the ownership analysis over the value-computation cone. only (optional) restricts
@@ -570,7 +571,7 @@ func c04NoMutation(w *World, r *Report, rule string, only map[string]bool) {
 			return
 		}
 		p := fnPkgPath(f)
-		if p != utilPkg && p != loaderPkg && p != enginePkg && p != helmMod+"/pkg/chart/v2" {
+		if p != utilPkg && p != loaderPkg && p != enginePkg && p != helmMod+"/pkg/chart/v2" && !(p == helmMod+"/pkg/lint/rules" && f.Name() == "validateValuesFile") {
 			return
 		}
 		scope[f] = true
